@@ -88,6 +88,9 @@ structure Th where
   popped : List Stmt := []    -- every event ever popped from this thread's transit buffer, in order
   discarded : Nat := 0        -- ordinary log statements refused by a dropping queue (the call returned false)
   blockedCalls : Nat := 0     -- ordinary log calls that had to wait on a blocking queue
+  -- unbounded-queue variants only (`Backend/UQueue.lean`): `q` is the consumer's node, `more` the nodes allocated after
+  -- it in allocation order (the last one is the producer's node); always `[]` in the bounded machine
+  more : List St := []
 
 instance : Inhabited Th := ⟨{ actor := 0, q := init 1 0 }⟩
 
